@@ -38,7 +38,6 @@ type scenario struct {
 	Gate     int    `json:"gate"`     // node index whose get_peers datagram is held in WriteTo; -1 none
 	Choices  []int  `json:"choices"`  // which parked reply to release at each choice point
 	Rand     int64  `json:"rand"`     // choices beyond the vector: 0 = first, else seeded
-	Conc     bool   `json:"conc"`     // do not wait for quiescence between actions
 }
 
 const (
@@ -365,6 +364,18 @@ func (r *runner) heldNode(p *parked) bool {
 	return r.gated && !r.gateOpen && p.q == "get_peers" && r.nw.nodes[r.sc.Gate] == p.nd
 }
 
+// How long the driver waits for a delivery the consumer is owed before it goes on (the missing
+// PeersDelivered line is then for the validator to judge): 3 s until that has happened once in this
+// process, 300 ms afterwards.
+var softExpired int32
+
+func softWait() time.Duration {
+	if atomic.LoadInt32(&softExpired) != 0 {
+		return 300 * time.Millisecond
+	}
+	return 3 * time.Second
+}
+
 // what the driver holds
 func (r *runner) counts() (gp, an, auto, undeliv, gatedNow int) {
 	r.mu.Lock()
@@ -406,11 +417,14 @@ func (r *runner) quiesce(a *dht.Announce) error {
 		// whatever the node does next: a response it was handed while the consumer reads and nobody
 		// has stopped it is on its way to the consumer; wait (softly) until the consumer has logged it
 		r.mu.Lock()
-		owedWait := !r.paused && !r.stopCall && r.respInj > int(atomic.LoadInt32(&r.deliv)) && time.Since(start) < 2*time.Second
+		owedWait := !r.paused && !r.stopCall && r.respInj > int(atomic.LoadInt32(&r.deliv)) && time.Since(start) < softWait()
 		r.mu.Unlock()
 		if owedWait {
 			time.Sleep(100 * time.Microsecond)
 			continue
+		}
+		if !r.paused && !r.stopCall && r.respInj > int(atomic.LoadInt32(&r.deliv)) {
+			atomic.StoreInt32(&softExpired, 1) // a delivery is overdue
 		}
 		if isDone(a.Finished()) {
 			return nil
@@ -425,11 +439,11 @@ func (r *runner) quiesce(a *dht.Announce) error {
 			gp, an, auto, undeliv, gatedNow := r.counts()
 			ok, need := false, 3
 			switch {
-			case auto > 0 && (r.paused || undeliv == 0 || s.Stopping || time.Since(start) > 2*time.Second):
+			case auto > 0 && (r.paused || undeliv == 0 || s.Stopping || time.Since(start) > softWait()):
 				return nil // an immediate reply is due
 			case !s.Stopping:
 				ok = s.Outstanding > 0 && s.Outstanding == gp+undeliv && (s.Outstanding >= 3 || !s.HaveQuery) &&
-					(r.paused || undeliv == 0 || time.Since(start) > 2*time.Second)
+					(r.paused || undeliv == 0 || time.Since(start) > softWait())
 			case !s.Stopped:
 				need = 8
 				ok = s.Outstanding > 0 && s.Outstanding <= undeliv+gatedNow && auto == 0
@@ -539,6 +553,10 @@ func (r *runner) stop(a *dht.Announce, kind int) {
 func (r *runner) run() (lines []string, err error) {
 	sc := r.sc
 	r.nw = genNetwork(rand.New(rand.NewSource(sc.NetSeed)), sc.Shape, sc.Size)
+	if sc.Gate >= len(r.nw.nodes) {
+		sc.Gate = -1
+		r.sc.Gate = -1
+	}
 	prng := rand.New(rand.NewSource(sc.NetSeed ^ 0x5eed))
 	r.opt = options(sc.Opt, 1+prng.Intn(65535))
 	if sc.Rand != 0 {
